@@ -153,8 +153,8 @@ def run(mir_path, T, K, src_dir, md_src, inline=None):
                 elif linted:
                     expected.append((p, q, "Word", i, "loose"))
             elif kind == "code":
-                if q - p < 2:
-                    raise PathEnd()
+                if q - p < 3:
+                    raise PathEnd()  # a code span has two delimiters and a non-empty content ("``" is literal text)
                 events.append(Tup([ev("Code", cow(p + 1, q - 1)), brange(p, q)]))
                 expected.append((p, q - 2, "Unlintable", i))
             elif kind in ("inline_html", "html"):
@@ -280,6 +280,8 @@ def run(mir_path, T, K, src_dir, md_src, inline=None):
         for t in toks:
             s_, e_ = t.fields[0].fields[0].t, t.fields[0].fields[1].t
             claims.append((z3.And(z3.ULE(s_, e_), z3.ULE(e_, T)), "a token lies outside the text"))
+            if t.fields[1].variant not in ("ParagraphBreak", "Newline"):
+                claims.append((z3.ULT(s_, e_), f"a zero-width token is a {t.fields[1].variant}, not a structural break"))
             if prev_end is not None:
                 claims.append((z3.Or(s_ == e_, z3.ULE(prev_end, s_)), "tokens covering characters are out of order or overlap"))
             prev_end = z3.If(s_ == e_, prev_end, e_) if prev_end is not None else e_
